@@ -254,7 +254,7 @@ impl CommonInformationEntry {
 
         write_nop(
             w,
-            encoding.format.word_size() as usize + w.len() - length_base,
+            encoding.format.initial_length_size() as usize + w.len() - length_base,
             encoding.address_size,
         )?;
 
@@ -362,7 +362,7 @@ impl FrameDescriptionEntry {
 
         write_nop(
             w,
-            encoding.format.word_size() as usize + w.len() - length_base,
+            encoding.format.initial_length_size() as usize + w.len() - length_base,
             encoding.address_size,
         )?;
 
